@@ -48,6 +48,14 @@ fn wrap(via: &str, target: &str, generic: Option<&str>, rng: &mut Rng) -> String
         "slice" => format!("&'static [{target}]"),
         "generic-arg" => format!("{}<{target}>", generic.unwrap_or("Vec")),
         "nested-generic-arg" => format!("{}<Vec<{target}>>", generic.unwrap_or("Vec")),
+        "same-kind-nested" => match rng.below(5) {
+            0 => format!("Vec<Vec<{target}>>"),
+            1 => format!("Option<Option<{target}>>"),
+            2 => format!("HashMap<String, HashMap<String, {target}>>"),
+            3 => format!("[[{target}; 2]; 2]"),
+            _ => format!("Vec<Option<Vec<{target}>>>"),
+        },
+        "deep-mixed" => format!("HashMap<String, Vec<Option<Box<[{target}; 2]>>>>"),
         _ => match rng.below(3) {
             0 => format!("Vec<Option<{target}>>"),
             1 => format!("Option<Vec<{target}>>"),
@@ -56,7 +64,7 @@ fn wrap(via: &str, target: &str, generic: Option<&str>, rng: &mut Rng) -> String
     }
 }
 
-const VIAS: [&str; 10] = ["direct", "vec", "option", "map-value", "map-key", "array", "slice", "generic-arg", "nested-generic-arg", "nested-container"];
+const VIAS: [&str; 12] = ["direct", "vec", "option", "map-value", "map-key", "array", "slice", "generic-arg", "nested-generic-arg", "nested-container", "same-kind-nested", "deep-mixed"];
 
 fn gen_model(rng: &mut Rng, n: usize, edge_bits: Option<u64>, consts: bool) -> Model {
     let mut stems = Stems::default();
